@@ -197,6 +197,8 @@ Section Submit.
   Proof.
     induction fuel as [|f IH]; intros s s' H; [discriminate H|].
     cbn [main_loop] in H.
+    apply ebind_inv in H. destruct H as [s00 [s01 [_ H]]].
+    apply ebind_inv in H. destruct H as [u0 [s02 [_ H]]].
     apply ebind_inv in H. destruct H as [c0 [s1 [_ H]]].
     apply ebind_inv in H. destruct H as [u [s2 [_ H]]].
     apply ebind_inv in H. destruct H as [oc [s3 [_ H]]].
